@@ -30,6 +30,7 @@ type Group struct {
 	Pkg     string     `json:"pkg"`     // package pattern relative to /repo, e.g. ./mcp
 	Dir     string     `json:"dir"`     // directory under /repo
 	Harness []string   `json:"harness"` // files under /verif/harness/<dir>/
+	Aux     []string   `json:"aux"`     // helper files "<dir>/<file>" under /verif/harness overlaid into other packages (no prelude)
 	Entries []EntryDef `json:"entries"`
 }
 
@@ -93,6 +94,13 @@ func buildOverlay(g *Group, extra map[string]string) (map[string][]byte, error) 
 		ov[filepath.Join(repoDir(), g.Dir, "zz_verif_"+filepath.Base(h))] = src
 	}
 	ov[filepath.Join(repoDir(), g.Dir, "zz_verif_prelude.go")] = preludeFor(pkgName)
+	for _, a := range g.Aux {
+		src, err := os.ReadFile(filepath.Join(verifRoot, "harness", a))
+		if err != nil {
+			return nil, err
+		}
+		ov[filepath.Join(repoDir(), filepath.Dir(a), "zz_verif_"+filepath.Base(a))] = src
+	}
 	for k, v := range extra {
 		b, err := os.ReadFile(v)
 		if err != nil {
